@@ -189,6 +189,255 @@ pub fn check_race(c: &RaceCase) -> CheckResult {
     Ok(rep)
 }
 
+// ---------------------------------------------------------------------------------------------
+// the same races through the real server backends
+
+#[derive(Clone, Debug, PartialEq, Eq, Hash, Serialize, Deserialize)]
+pub struct RealRaceCase {
+    /// 0 = local server (one handle per replica on one directory), 1 = object store (scheduling
+    /// points are the individual object-store requests), 2 = HTTP client against the harness's
+    /// protocol server, 3 = git with a bare remote and one clone per replica
+    pub backend: u8,
+    pub race: RaceCase,
+}
+
+/// Yields to the scheduler before every request and counts rejected versions.
+struct GatedServer {
+    inner: Box<dyn taskchampion::server::Server>,
+    gate: std::rc::Rc<std::cell::Cell<bool>>,
+    rejections: std::rc::Rc<std::cell::Cell<usize>>,
+}
+
+#[async_trait::async_trait(?Send)]
+impl taskchampion::server::Server for GatedServer {
+    async fn add_version(
+        &mut self,
+        parent_version_id: taskchampion::server::VersionId,
+        history_segment: taskchampion::server::HistorySegment,
+    ) -> Result<(taskchampion::server::AddVersionResult, taskchampion::server::SnapshotUrgency), taskchampion::Error> {
+        if self.gate.get() {
+            crate::engine::exec::yield_once().await;
+        }
+        let r = self.inner.add_version(parent_version_id, history_segment).await;
+        if let Ok((taskchampion::server::AddVersionResult::ExpectedParentVersion(_), _)) = &r {
+            self.rejections.set(self.rejections.get() + 1);
+        }
+        r
+    }
+    async fn get_child_version(
+        &mut self,
+        parent_version_id: taskchampion::server::VersionId,
+    ) -> Result<taskchampion::server::GetVersionResult, taskchampion::Error> {
+        if self.gate.get() {
+            crate::engine::exec::yield_once().await;
+        }
+        self.inner.get_child_version(parent_version_id).await
+    }
+    async fn add_snapshot(&mut self, version_id: taskchampion::server::VersionId, snapshot: taskchampion::server::Snapshot) -> Result<(), taskchampion::Error> {
+        if self.gate.get() {
+            crate::engine::exec::yield_once().await;
+        }
+        self.inner.add_snapshot(version_id, snapshot).await
+    }
+    async fn get_snapshot(&mut self) -> Result<Option<(taskchampion::server::VersionId, taskchampion::server::Snapshot)>, taskchampion::Error> {
+        if self.gate.get() {
+            crate::engine::exec::yield_once().await;
+        }
+        self.inner.get_snapshot().await
+    }
+}
+
+pub fn check_race_real(c: &RealRaceCase) -> CheckResult {
+    use super::c08::{Backend, Bk};
+    use crate::engine::exec::block_on;
+    use crate::engine::model::Model;
+    use crate::engine::rep::Rep;
+    use taskchampion::server::GetVersionResult;
+    let backend = match c.backend % 4 {
+        0 => Backend::Local2,
+        1 => Backend::ObjectStore,
+        2 => Backend::Http,
+        _ => Backend::GitRemote,
+    };
+    let n = c.race.replicas as usize;
+    let mut rep = CaseReport::default();
+    rep.class(match backend {
+        Backend::Local2 => "through-local-server",
+        Backend::ObjectStore => "through-object-store",
+        Backend::Http => "through-http",
+        _ => "through-git-remote",
+    });
+    let mut bk = Bk::open(backend, n + 1)?;
+    let gate = std::rc::Rc::new(std::cell::Cell::new(false));
+    let rejections = std::rc::Rc::new(std::cell::Cell::new(0usize));
+    let mut reps: Vec<Rep> = (0..n).map(|_| Rep::mem(&pool())).collect();
+    let mut rz: Vec<Realizer> = (0..n).map(Realizer::new).collect();
+    let mut handles: Vec<Option<Box<dyn taskchampion::server::Server>>> = (0..n).map(|_| None).collect();
+    let mut pushed = false;
+    // handle of replica r, opened on first use (a second git clone only once something is pushed)
+    macro_rules! handle {
+        ($r:expr) => {{
+            let r: usize = $r;
+            if handles[r].is_none() {
+                let hidx = if backend == Backend::GitRemote && !pushed { 0 } else { r };
+                if backend == Backend::GitRemote && hidx == 0 && r != 0 {
+                    // replica r borrows clone 0 until the chain exists: not modelled, skip it
+                    None
+                } else {
+                    bk.handle(hidx, pushed)?;
+                    let inner = bk.handles[hidx].take().unwrap();
+                    handles[r] = Some(Box::new(GatedServer { inner, gate: gate.clone(), rejections: rejections.clone() }));
+                    handles[r].as_mut()
+                }
+            } else {
+                handles[r].as_mut()
+            }
+        }};
+    }
+    macro_rules! commit {
+        ($r:expr, $intents:expr) => {{
+            let r: usize = $r;
+            let mut local = reps[r].tasks();
+            let mut ops = vec![];
+            rz[r].realize($intents, &mut local, &mut ops);
+            reps[r].commit(ops).map_err(|e| Failure::new("commit-error", format!("{e}")))?;
+        }};
+    }
+    macro_rules! sync {
+        ($r:expr, $what:expr) => {{
+            let r: usize = $r;
+            if let Some(h) = handle!(r) {
+                reps[r]
+                    .sync(h, true)
+                    .map_err(|e| Failure::new("sync-error", format!("{}: sequential sync of replica {r} through {backend:?} failed: {e:?}", $what)))?;
+                pushed = pushed || !reps[r].dump().base.is_nil();
+            }
+        }};
+    }
+    for a in &c.race.prior {
+        match a {
+            Action::Commit { r, intents } => commit!(*r as usize % n, intents),
+            Action::Sync { r } => sync!(*r as usize % n, "prior history"),
+            Action::Big { .. } => {}
+        }
+    }
+    if backend == Backend::GitRemote && !pushed {
+        // the remote's branch has to exist before a second clone is made
+        commit!(0, &[Intent::Set { t: 0, p: 0, v: 1, ts: 0 }]);
+        sync!(0, "first push");
+    }
+    for (pi, ph) in c.race.phases.iter().enumerate() {
+        for (r, intents) in &ph.commits {
+            commit!(*r as usize % n, intents);
+        }
+        if let Some(r) = ph.big {
+            let r = r as usize % n;
+            let mut local = reps[r].tasks();
+            let mut ops = vec![];
+            rz[r].realize_big(0, 3, 340, &[], &[], &[], &mut local, &mut ops);
+            reps[r].commit(ops).map_err(|e| Failure::new("commit-error", format!("big commit failed: {e}")))?;
+            rep.class("big-commit");
+        }
+        let racers: Vec<usize> = (0..n).filter(|i| ph.racers & (1 << i) != 0).collect();
+        for r in &racers {
+            if handle!(*r).is_none() {
+                return Ok(rep);
+            }
+        }
+        if racers.len() >= 2 {
+            rep.class("race-with-2+-replicas");
+        }
+        let before = rejections.get();
+        // scheduling points: server requests; on the object store, its individual requests
+        if let Some(store) = bk.store() {
+            for r in &racers {
+                store.handle(*r).set_gated(true);
+            }
+        } else {
+            gate.set(true);
+        }
+        let results = {
+            let mut clients: Vec<Client<'_, Result<(), taskchampion::Error>>> = vec![];
+            for (i, (rp, h)) in reps.iter_mut().zip(handles.iter_mut()).enumerate() {
+                if racers.contains(&i) {
+                    clients.push(Box::pin(rp.replica.sync(h.as_mut().unwrap(), true)));
+                }
+            }
+            run_scheduled(clients, &ph.schedule)
+        };
+        gate.set(false);
+        if let Some(store) = bk.store() {
+            for r in &racers {
+                store.handle(*r).set_gated(false);
+            }
+        }
+        for (k, res) in results.outputs.into_iter().enumerate() {
+            if let Err(e) = res {
+                crate::fail!(
+                    "race-sync-error",
+                    "phase {pi}: concurrent sync of replica {} through {backend:?} failed: {e:?} (schedule trace {:?})",
+                    racers[k],
+                    results.trace
+                );
+            }
+        }
+        pushed = pushed || reps.iter_mut().any(|r| !r.dump().base.is_nil());
+        if rejections.get() > before {
+            rep.class("rejection-in-race");
+        }
+    }
+    for round in 0..2 {
+        for r in 0..n {
+            sync!(r, format!("quiesce round {round}"));
+        }
+    }
+    // the chain, read through a fresh handle, replays to what every replica holds
+    bk.handle(n, pushed)?;
+    let fresh = bk.handles[n].as_mut().unwrap();
+    let mut m = Model::new();
+    let mut p = taskchampion::Uuid::nil();
+    let mut versions = 0;
+    loop {
+        match block_on(fresh.get_child_version(p)).map_err(|e| Failure::new("walk-error", format!("get_child_version({p}) through a fresh handle fails: {e:?}")))? {
+            GetVersionResult::Version { version_id, parent_version_id, history_segment } => {
+                crate::ensure!(parent_version_id == p, "wrong-child", "child of {p} claims parent {parent_version_id}");
+                m.apply_all(&parse_version(&history_segment).map_err(|e| Failure::new("bad-version", e))?);
+                p = version_id;
+                versions += 1;
+                crate::ensure!(versions < 10_000, "chain-cycle", "the chain does not end");
+            }
+            GetVersionResult::NoSuchVersion => break,
+        }
+    }
+    for r in 0..n {
+        if handles[r].is_none() {
+            continue;
+        }
+        let t = reps[r].tasks();
+        crate::ensure!(
+            t == m,
+            "diverged",
+            "after the races through {backend:?} and quiescence replica {r} holds\n  {}\nbut the chain ({versions} versions) replays to\n  {}",
+            t.render(),
+            m.render()
+        );
+        crate::ensure!(reps[r].num_local() == 0, "quiesce-pending", "replica {r} still has local operations");
+    }
+    rep.nontrivial = rejections.get() >= 1;
+    let _ = MOp::Create(taskchampion::Uuid::nil());
+    Ok(rep)
+}
+
+pub fn real_strategy(backends: &'static [u8]) -> BoxedStrategy<RealRaceCase> {
+    (proptest::sample::select(backends), race_strategy(3, 4, 1))
+        .prop_map(|(backend, race)| RealRaceCase { backend, race })
+        .boxed()
+}
+
+pub fn real_strategy_git() -> BoxedStrategy<RealRaceCase> {
+    race_strategy(3, 2, 0).prop_map(|race| RealRaceCase { backend: 3, race }).boxed()
+}
+
 pub fn render(c: &RaceCase) -> serde_json::Value {
     serde_json::json!({
         "replicas": c.replicas,
@@ -268,6 +517,27 @@ non-trivial = at least one add_version was answered ExpectedParentVersion; disti
         render,
         check_race,
     );
+    e.assume("races through the real backends: scheduling points are whole Server requests (local server, HTTP, git) or single object-store requests; replicas avoid snapshots");
+    e.campaign(
+        "races-real-backends",
+        "the same race phases with every replica on its own handle of a real backend: local server (one SQLite directory), object-store server (interleaved at single store requests), HTTP client against the harness protocol server; all syncs must succeed, replicas converge to the replay of the chain read through a fresh handle; non-trivial = a version was rejected",
+        e.tier.pick(1000, 60_000),
+        || real_strategy(&[0, 1, 2]),
+        |c| serde_json::json!({"backend": (["local", "object-store", "http", "git-remote"][c.backend as usize % 4]), "race": render(&c.race)}),
+        check_race_real,
+    );
+    e.set_worker_cap(4);
+    e.set_shrink_iters(30);
+    e.campaign(
+        "races-git-remote",
+        "as races-real-backends, through the git server with a bare remote and one clone per replica (interleaved at whole Server requests)",
+        e.tier.pick(3, 150),
+        || real_strategy_git(),
+        |c| serde_json::json!({"backend": "git-remote", "race": render(&c.race)}),
+        check_race_real,
+    );
+    e.set_worker_cap(u64::MAX);
+    e.set_shrink_iters(4000);
     e.campaign(
         "races-multibatch",
         "as 'races' with pending changes above the batching threshold in the prior history",
